@@ -302,6 +302,45 @@ func runC16(c *Ctx) {
 			}
 		}
 		R.Floor("C16.R4", "wg.Add sites on the connection path", nAdd, 1)
+		// outside the connection path (Serve): a goroutine that holds a registration (its body runs wg.Done) must not
+		// wait for a client - it would keep Close waiting for as long as a connection stays open or idle
+		readers := c.inputReaders()
+		for _, g := range c.goroutinesOf(serveFn, 2) {
+			holds := false
+			for _, f := range allNested(g) {
+				for _, ci := range core.Calls(f) {
+					if wgOp(ci) == "Done" {
+						holds = true
+					}
+				}
+			}
+			if !holds {
+				continue
+			}
+			waits := ""
+			seen := map[*ssa.Function]bool{}
+			var walk func(f *ssa.Function, depth int)
+			walk = func(f *ssa.Function, depth int) {
+				if f == nil || seen[f] || depth == 0 || waits != "" {
+					return
+				}
+				seen[f] = true
+				if readers[f] {
+					waits = fname(f)
+					return
+				}
+				for _, ci := range core.Calls(f) {
+					if h := core.StaticCallee(ci); h != nil && c.P.InScope(h) {
+						walk(h, depth-1)
+					}
+				}
+				for _, a := range f.AnonFuncs {
+					walk(a, depth-1)
+				}
+			}
+			walk(g, 8)
+			R.Check(waits == "", "C16.R4", fkey(g)+":registered-goroutine-does-not-wait-for-clients", c.atFn(g), "a goroutine of Serve that is registered with the wait group ends on its own once Close has signalled (it never waits for a client)", "the goroutine's body reaches no read of client input", "a goroutine registered with the wait group reaches "+waits+": it lives as long as its connection, so Close blocks until every client - even an idle one - has disconnected")
+		}
 	}
 	// the flag, lock and wait group that admission uses are those Close operates on: there is one Server object, built
 	// by NewServer - a second one (a per-connection copy "with a logger", say) has its own zero flag and wait group
